@@ -110,6 +110,8 @@ func (b *faultBank) SendCoins(ctx sdk.Context, from, to sdk.AccAddress, amt sdk.
 	return b.inner.SendCoins(ctx, from, to, amt)
 }
 
+func (b *faultBank) BlockedAddr(addr sdk.AccAddress) bool { return b.inner.BlockedAddr(addr) }
+
 type stubErc20 struct {
 	w *World
 	f *faults
@@ -369,6 +371,16 @@ func (w *World) accName(bech string) string {
 
 // hexName renders a 20-byte address given as hex string (any case, with or without 0x) canonically:
 // lower-case 0x + 40 hex digits.
+// isModuleHex: the address of one of the module accounts the dumps already show under their own names (pool, distr, collector)
+func isModuleHex(h string) bool {
+	for _, m := range []string{distrtypes.ModuleName, otypes.ModuleName, authtypes.FeeCollectorName} {
+		if strings.EqualFold(h, "0x"+hex.EncodeToString(authtypes.NewModuleAddress(m))) {
+			return true
+		}
+	}
+	return false
+}
+
 func hexName(h string) string {
 	h = strings.TrimPrefix(strings.ToLower(h), "0x")
 	for len(h) < 40 {
@@ -949,7 +961,7 @@ func (w *World) block() (res Result) {
 			// a record filled and paid within one end-block never shows its recipients in a dump: track their balances from here
 			for _, rc := range v.Recipients {
 				h := hexName(string(rc.Address))
-				if _, named := w.names[h[2:]]; !named {
+				if _, named := w.names[h[2:]]; !named && !isModuleHex(h) {
 					w.rcptSeen[h] = true
 				}
 			}
@@ -1164,7 +1176,7 @@ func (w *World) dumpBalances(ctx sdk.Context) []string {
 	for _, u := range w.SK.GetAllUTXRWithTenantAndID(ctx) {
 		for _, r := range u.Utxr.Recipients {
 			h := hexName(string(r.Address))
-			if _, named := w.names[h[2:]]; !named {
+			if _, named := w.names[h[2:]]; !named && !isModuleHex(h) {
 				w.rcptSeen[h] = true
 			}
 		}
